@@ -118,7 +118,9 @@ func checkC02(c *Ctx) {
 			gs = append(gs, repoSynGrammars()...)
 		}
 		for i := 0; i < n; i++ {
-			gs = append(gs, genSynGrammar(rng, c02Opts))
+			o := c02Opts
+			o.PRawLit = 0.12 // literals with a line break, NUL, BOM, tab: no debug output is read here
+			gs = append(gs, genSynGrammar(rng, o))
 		}
 		b := c.buildSynBatch(fmt.Sprintf("syn%d", done), gs, [][]string{nil})
 		var cf []*SynCase
